@@ -190,9 +190,79 @@ def conflict_scenario(with_savepoint):
         db.close()
 
 
+def blob_scenarios():
+    """blob data inside savepoints: rollback restores the blob bytes of the savepoint, any number of
+    times, and commit stores what the program last saw"""
+    import os
+    import shutil
+    import tempfile
+    from ZODB.FileStorage import FileStorage
+    from ZODB.blob import Blob
+    scripts = [
+        ('write one; sp1; write two; sp2; rollback sp1; read; commit',
+         [('w', b'one'), ('sp',), ('w', b'two'), ('sp',), ('rb', 0), ('r', b'one'), ('commit', b'one')]),
+        ('write one; sp1; write two; rollback sp1; read; write three; sp2; rollback sp1; read; commit',
+         [('w', b'one'), ('sp',), ('w', b'two'), ('rb', 0), ('r', b'one'), ('w', b'three'), ('sp',),
+          ('rb', 0), ('r', b'one'), ('commit', b'one')]),
+        ('write one; sp1; write two; sp2; write three; rollback sp2; read; rollback sp1; read; commit',
+         [('w', b'one'), ('sp',), ('w', b'two'), ('sp',), ('w', b'three'), ('rb', 1), ('r', b'two'),
+          ('rb', 0), ('r', b'one'), ('commit', b'one')]),
+        ('committed zero; write one; sp1; write two; sp2; rollback sp1; read; abort; read',
+         [('w', b'zero'), ('commit', b'zero'), ('w', b'one'), ('sp',), ('w', b'two'), ('sp',), ('rb', 0),
+          ('r', b'one'), ('abort',), ('r', b'zero')]),
+    ]
+    for name, script in scripts:
+        d = tempfile.mkdtemp(prefix='c12-blob-')
+        try:
+            st = FileStorage(os.path.join(d, 'Data.fs'), blob_dir=os.path.join(d, 'blobs'))
+            db = ZODB.DB(st)
+            tm = transaction.TransactionManager()
+            conn = db.open(tm)
+            b = Blob()
+            conn.root()['b'] = b
+            sps = []
+            for k, step in enumerate(script):
+                if step[0] == 'w':
+                    with b.open('w') as f:
+                        f.write(step[1])
+                elif step[0] == 'sp':
+                    sps.append(tm.savepoint())
+                elif step[0] == 'rb':
+                    sps[step[1]].rollback()
+                    del sps[step[1] + 1:]
+                elif step[0] == 'r':
+                    with b.open('r') as f:
+                        got = f.read()
+                    if got != step[1]:
+                        return (name, k, 'the blob reads %r' % step[1], 'it reads %r' % got)
+                elif step[0] == 'abort':
+                    tm.abort()
+                    sps = []
+                elif step[0] == 'commit':
+                    tm.commit()
+                    sps = []
+                    c2 = db.open(transaction.TransactionManager())
+                    with c2.root()['b'].open('r') as f:
+                        got = f.read()
+                    c2.close()
+                    if got != step[1]:
+                        return (name, k, 'another connection reads %r after the commit' % step[1],
+                                'it reads %r' % got)
+            db.close()
+        except Exception as e:  # noqa
+            return (name, -1, 'scenario runs', '%s: %s' % (type(e).__name__, e))
+        finally:
+            shutil.rmtree(d, ignore_errors=True)
+    return None
+
+
 def search(func, candidate, seed, tier, obligation=''):
     logging.disable(logging.CRITICAL)
-    cases = 0
+    cases = 1
+    r = blob_scenarios()
+    if r:
+        return {'found': True, 'cases': cases, 'input': {'blob_scenario': r[0], 'failing_step': r[1]},
+                'expected': r[2], 'observed': r[3]}
     for sp in (True, False):
         cases += 1
         r = conflict_scenario(sp)
